@@ -131,19 +131,21 @@ Proof.
 Qed.
 
 (* the NoLock branch: per coin floor(R / re) <= R *)
-Lemma nolock_coins_bound : forall re remain acc total, 1 <= re -> Forall (fun c => 0 <= snd c) remain -> pos_coins acc ->
-  nolock_coins re remain acc = Some total ->
+Lemma nolock_coins_bound : forall re remain acc, 1 <= re -> Forall (fun c => 0 <= snd c) remain -> pos_coins acc ->
+  let total := nolock_coins re remain acc in
   pos_coins total /\ forall d, amount_of acc d <= amount_of total d <= amount_of acc d + amount_of remain d.
 Proof.
-  induction remain as [|[d0 R] r IH]; intros acc total Hre Hr Hp H; cbn [nolock_coins] in H.
-  - inversion H; subst. split; auto. intros; cbn; lia.
+  induction remain as [|[d0 R] r IH]; intros acc Hre Hr Hp; cbn [nolock_coins].
+  - split; auto. intros; cbn; lia.
   - inversion Hr as [|? ? HR Hr']; subst. cbn in HR.
-    destruct (Z.quot R re <=? 0) eqn:E; [discriminate|]. apply Z.leb_gt in E.
+    destruct (Z.quot R re <=? 0) eqn:E.
+    { destruct (IH acc Hre Hr' Hp) as [A B]. split; auto. intros d. specialize (B d). cbn [amount_of]. destruct (d0 =? d); lia. }
+    apply Z.leb_gt in E.
     assert (Q : Z.quot R re <= R).
     { rewrite Z.quot_div_nonneg by lia. apply Z.div_le_upper_bound; [lia|]. assert (0 <= (re - 1) * R) by (apply Z.mul_nonneg_nonneg; lia). lia. }
-    apply IH in H; auto.
-    2:{ apply pos_coins_add; auto. constructor; [cbn; lia|constructor]. }
-    destruct H as [A B]. split; auto. intros d. specialize (B d). rewrite amount_of_coins_add in B. cbn [amount_of] in *.
+    assert (Pa : pos_coins (coins_add acc [(d0, Z.quot R re)])).
+    { apply pos_coins_add; auto. constructor; [cbn; lia|constructor]. }
+    destruct (IH _ Hre Hr' Pa) as [A B]. split; auto. intros d. specialize (B d). rewrite amount_of_coins_add in B. cbn [amount_of] in *.
     pose proof (amount_of_nonneg r d Hr'). destruct (d0 =? d); lia.
 Qed.
 
@@ -165,10 +167,10 @@ Proof.
   assert (OK0 : gauge_ok (post_update g []) ).
   { unfold gauge_ok, post_update; cbn. repeat split; auto. }
   destruct (negb (g_pool g =? 0)).
-  { destruct (nolock_coins (remain_epochs g) remain []) as [total|] eqn:NL; [|discriminate]. inversion H; subst; clear H.
+  { inversion H; subst; clear H.
     pose proof (remain_epochs_range g) as Rr. assert (R1 : 1 <= remain_epochs g) by lia.
     assert (P0 : pos_coins []) by constructor.
-    destruct (nolock_coins_bound _ _ _ _ R1 (pos_nonneg _ Rp) P0 NL) as [Pt Bt].
+    destruct (nolock_coins_bound _ _ _ R1 (pos_nonneg _ Rp) P0) as [Pt Bt].
     unfold gauge_ok, post_update; cbn. repeat split; auto.
     - apply pos_coins_add; auto. apply pos_nonneg; auto.
     - intros d. rewrite amount_of_coins_add. specialize (Bt d). cbn [amount_of] in Bt. rewrite Rs in Bt. lia.
@@ -203,7 +205,7 @@ Proof.
   destruct (coins_sub (g_coins g) (g_dist g)) as [remain|]; [|discriminate].
   destruct (remain_epochs g =? 0); [discriminate|].
   destruct (negb (g_pool g =? 0)).
-  { destruct (nolock_coins (remain_epochs g) remain []); [|discriminate]. inversion H; eauto. }
+  { inversion H; eauto. }
   destruct (is_empty ls); [discriminate|]. destruct (is_empty remain); [inversion H; eauto|].
   destruct (is_small_gauge cfg remain); [inversion H; eauto|].
   destruct ((sum_locks ls =? 0) || (2 ^ max_int_bits <=? sum_locks ls)); [discriminate|].
